@@ -29,15 +29,16 @@ type FuncInfo struct {
 }
 
 type Prog struct {
-	fset      *token.FileSet
-	pkgs      map[string]*packages.Package
-	funcs     map[*types.Func]*FuncInfo
-	byKey     map[string]*FuncInfo // pkgpath + "." + Key
-	contracts map[string]*Contract // pkgpath.Key -> contract (incl. trusted externals by full name)
-	lemmas    []*Contract
-	defs      map[string]*Contract
-	nonNeg    map[string]bool
-	root      string
+	fset           *token.FileSet
+	pkgs           map[string]*packages.Package
+	funcs          map[*types.Func]*FuncInfo
+	byKey          map[string]*FuncInfo // pkgpath + "." + Key
+	contracts      map[string]*Contract // pkgpath.Key -> contract (incl. trusted externals by full name)
+	lemmas         []*Contract
+	defs           map[string]*Contract
+	nonNeg         map[string]bool
+	ifaceContracts map[string]*Contract
+	root           string
 }
 
 const contractFile = "zz_verif_contracts.go"
@@ -49,7 +50,7 @@ func loadProg(root string, patterns []string) (*Prog, error) {
 	if err != nil {
 		return nil, err
 	}
-	p := &Prog{pkgs: map[string]*packages.Package{}, funcs: map[*types.Func]*FuncInfo{}, byKey: map[string]*FuncInfo{}, contracts: map[string]*Contract{}, defs: map[string]*Contract{}, nonNeg: map[string]bool{}, root: root}
+	p := &Prog{pkgs: map[string]*packages.Package{}, funcs: map[*types.Func]*FuncInfo{}, byKey: map[string]*FuncInfo{}, contracts: map[string]*Contract{}, defs: map[string]*Contract{}, nonNeg: map[string]bool{}, ifaceContracts: map[string]*Contract{}, root: root}
 	var errs []string
 	packages.Visit(pkgs, nil, func(pk *packages.Package) {
 		p.pkgs[pk.PkgPath] = pk
@@ -132,6 +133,14 @@ func loadProg(root string, patterns []string) (*Prog, error) {
 	for k, c := range p.contracts {
 		fi := p.byKey[k]
 		if fi == nil {
+			// an interface method: a trusted contract on the interface
+			if full := p.ifaceMethodFullName(c); full != "" {
+				if !c.Trusted {
+					return nil, fmt.Errorf("%s: contract on interface method %s must be marked trusted", c.Src, c.Key)
+				}
+				p.ifaceContracts[full] = c
+				continue
+			}
 			missing = append(missing, fmt.Sprintf("%s (%s)", k, c.Src))
 			continue
 		}
@@ -152,7 +161,29 @@ func loadProg(root string, patterns []string) (*Prog, error) {
 // funcKey: "Recv.Name" or "Name".
 func funcKey(fn *types.Func) string { return shortFuncName(fn) }
 
-func (p *Prog) contractByFullName(full string) *Contract { return nil }
+func (p *Prog) contractByFullName(full string) *Contract { return p.ifaceContracts[full] }
+
+func (p *Prog) ifaceMethodFullName(c *Contract) string {
+	pk := p.pkgs[c.PkgPath]
+	i := strings.Index(c.Key, ".")
+	if pk == nil || i < 0 {
+		return ""
+	}
+	tn, ok := pk.Types.Scope().Lookup(c.Key[:i]).(*types.TypeName)
+	if !ok {
+		return ""
+	}
+	it, ok := tn.Type().Underlying().(*types.Interface)
+	if !ok {
+		return ""
+	}
+	for k := 0; k < it.NumMethods(); k++ {
+		if it.Method(k).Name() == c.Key[i+1:] {
+			return it.Method(k).FullName()
+		}
+	}
+	return ""
+}
 
 // qualified display name: pkgname.(Recv).Func
 func (p *Prog) displayName(fi *FuncInfo) string {
@@ -384,6 +415,36 @@ func (v *Verifier) intrinsic(fr *Frame, st *State, full string, fn *types.Func, 
 			v.setGhostHeap(st, gAtomic, c.Store(h, pv.Ref, nv))
 			return Scalar{nv, u64}, true
 		}
+	case "(crypto/cipher.Stream).XORKeyStream":
+		use()
+		v.needIntIdx(pos, "keystream model")
+		// dst[k] = src[k] ^ ks(stream, pos+k) for k < len(src); pos advances by len(src)
+		sv := recv.(OpaqueVal)
+		dst, src := args[0].(SliceVal), args[1].(SliceVal)
+		if !fr.inSpec {
+			v.oblige(fr, st, "bounds", pos, c.ILe(src.Len, dst.Len), "XORKeyStream: dst shorter than src")
+		}
+		posH := v.ghostHeap(st, gKsPos)
+		p0 := c.Select(posH, sv.ID)
+		srcRow := v.eng.heapRows(st, byteSh, src.Ref)[0]
+		old := v.eng.heapRows(st, byteSh, dst.Ref)[0]
+		nr := c.Fresh("ksrow", old.Sort)
+		j := c.Bound("j", IntSort)
+		rel := c.ISub(j, dst.Off)
+		in := c.And(c.ILe(dst.Off, j), c.ILt(rel, src.Len))
+		st.assume(c.Forall([]*Term{j}, c.Eq(c.Select(nr, j), c.Ite(in,
+			c.BVXor(c.Select(srcRow, c.IAdd(src.Off, rel)), c.App("ghost$ks", BVSort(8), sv.ID, c.IAdd(p0, rel))),
+			c.Select(old, j)))))
+		v.eng.heapSetRows(st, byteSh, dst.Ref, []*Term{nr})
+		v.setGhostHeap(st, gKsPos, c.Store(posH, sv.ID, c.IAdd(p0, src.Len)))
+		return TupleVal{}, true
+	case "crypto/cipher.NewCTR":
+		use()
+		blk := args[0].(OpaqueVal)
+		iv := args[1].(SliceVal)
+		rows := v.eng.heapRows(st, byteSh, iv.Ref)
+		id := c.App("ufCTR", IntSort, blk.ID, rows[0], iv.Off, iv.Len)
+		return OpaqueVal{Sh: v.eng.shapeOf(fn.Type().(*types.Signature).Results().At(0).Type()), ID: id, Nil: c.False()}, true
 	case "(io.Closer).Close":
 		use()
 		res := fn.Type().(*types.Signature).Results()
